@@ -48,6 +48,11 @@ def case(draw, tier):
                                      (0.5, 1000), (7.25, 40), (60.0, 10), (0.75, 100)]))
         params["waiting_seconds_mean"], params["ticks_per_second"] = w, t
         params["num_pipelines"] = 1
+    elif mode == "ops" and draw(st.booleans()):
+        # large arrival bursts of short pipelines
+        params["num_pipelines"] = draw(st.sampled_from([40, 100, 25]))
+        params["num_operators"] = draw(st.sampled_from([4, 5, 3, 8]))
+        params["waiting_seconds_mean"] = 5 / tps
     elif mode in ("freq", "ops"):
         # many events are needed: keep the mean gap short (in ticks)
         params["waiting_seconds_mean"] = draw(st.sampled_from([1, 0.3, 5, 20, 100])) / tps
